@@ -82,6 +82,13 @@ pub struct OBook {
     pub style_name_collision: bool,
     /// a table:dde-links block after the sheets: its cached-values table has no name and is not a sheet
     pub dde_links: bool,
+    /// grouping elements around rows / columns (ODF 1.2 9.1.2): 0 none; 1 the first row in table:table-header-rows (print
+    /// titles); 2 all rows in one table:table-row-group (an outline); 3 header rows + the rest in table:table-rows, and
+    /// the column declaration in table:table-header-columns
+    pub row_wrappers: u8,
+    /// order of the attributes of a cell element: 0 formula, span, type, value (LibreOffice); 1 type, value, style, span,
+    /// formula; 2 value, type, validation, formula, repeat, span
+    pub cell_attr_order: u8,
 }
 
 fn spaces_xml(n: usize, mode: SpaceMode, at_start: bool) -> String {
@@ -120,45 +127,57 @@ pub fn para_xml(p: &str, mode: SpaceMode, span: bool) -> String {
     o
 }
 
-fn cell_xml(c: &OCell, rep: u32) -> String {
+fn cell_xml(c: &OCell, rep: u32, order: u8) -> String {
     let tag = if c.covered { "table:covered-table-cell" } else { "table:table-cell" };
-    let mut a = String::new();
-    if rep != 1 { a.push_str(&format!(" table:number-columns-repeated=\"{rep}\"")); }
-    if let Some(f) = &c.formula { a.push_str(&format!(" table:formula=\"{}\"", esc(f))); }
-    if let Some((sc, sr)) = c.spanned { a.push_str(&format!(" table:number-columns-spanned=\"{sc}\" table:number-rows-spanned=\"{sr}\"")); }
+    // attribute groups: repeat, formula, span, value type, value
+    let (mut a_rep, mut a_f, mut a_span, mut a_ty, mut a_val) = (String::new(), String::new(), String::new(), String::new(), String::new());
+    if rep != 1 { a_rep = format!(" table:number-columns-repeated=\"{rep}\""); }
+    if let Some(f) = &c.formula { a_f = format!(" table:formula=\"{}\"", esc(f)); }
+    if let Some((sc, sr)) = c.spanned { a_span = format!(" table:number-columns-spanned=\"{sc}\" table:number-rows-spanned=\"{sr}\""); }
     let mut body = String::new();
     match &c.val {
         OVal::Empty => {}
         OVal::Float(v, ty) => {
-            a.push_str(&format!(" office:value-type=\"{ty}\""));
-            if *ty == "currency" { a.push_str(" office:currency=\"EUR\""); }
-            a.push_str(&format!(" office:value=\"{v}\""));
+            a_ty = format!(" office:value-type=\"{ty}\"");
+            if *ty == "currency" { a_ty.push_str(" office:currency=\"EUR\""); }
+            a_val = format!(" office:value=\"{v}\"");
             body = format!("<text:p>{}</text:p>", esc_text(v));
         }
         OVal::StrAttrBare(s) => {
-            a.push_str(&format!(" office:value-type=\"string\" office:string-value=\"{}\"", esc(s)));
+            a_ty = " office:value-type=\"string\"".into();
+            a_val = format!(" office:string-value=\"{}\"", esc(s));
         }
         OVal::StrAttr(s) => {
-            a.push_str(&format!(" office:value-type=\"string\" office:string-value=\"{}\"", esc(s)));
+            a_ty = " office:value-type=\"string\"".into();
+            a_val = format!(" office:string-value=\"{}\"", esc(s));
             body = format!("<text:p>{}</text:p>", para_xml(&s.replace('\n', " "), SpaceMode::TextS, false));
         }
         OVal::StrContent(s, mode, span) => {
-            a.push_str(" office:value-type=\"string\"");
+            a_ty = " office:value-type=\"string\"".into();
             for p in s.split('\n') { body.push_str(&format!("<text:p>{}</text:p>", para_xml(p, *mode, *span))); }
         }
         OVal::Bool(b) => {
-            a.push_str(&format!(" office:value-type=\"boolean\" office:boolean-value=\"{b}\""));
+            a_ty = " office:value-type=\"boolean\"".into();
+            a_val = format!(" office:boolean-value=\"{b}\"");
             body = format!("<text:p>{}</text:p>", if *b { "TRUE" } else { "FALSE" });
         }
         OVal::Date(d) => {
-            a.push_str(&format!(" office:value-type=\"date\" office:date-value=\"{d}\""));
+            a_ty = " office:value-type=\"date\"".into();
+            a_val = format!(" office:date-value=\"{d}\"");
             body = format!("<text:p>{d}</text:p>");
         }
         OVal::Time(t) => {
-            a.push_str(&format!(" office:value-type=\"time\" office:time-value=\"{t}\""));
+            a_ty = " office:value-type=\"time\"".into();
+            a_val = format!(" office:time-value=\"{t}\"");
             body = format!("<text:p>{t}</text:p>");
         }
     }
+    // XML attributes are unordered: LibreOffice writes the formula first, a serialiser that sorts them writes it last
+    let a = match order {
+        0 => format!("{a_rep}{a_f}{a_span}{a_ty}{a_val}"),
+        1 => format!("{a_rep}{a_ty}{a_val} table:style-name=\"Default\"{a_span}{a_f}"),
+        _ => format!("{a_val}{a_ty} table:content-validation-name=\"v1\"{a_f}{a_rep}{a_span}"),
+    };
     if c.annotation { body = format!("<office:annotation office:display=\"false\"><dc:date>2021-03-04T05:06:07</dc:date><text:p>note &amp; <text:span>B2</text:span><text:s text:c=\"2\"/>x</text:p><text:p>second</text:p></office:annotation>{body}"); }
     if body.is_empty() { format!("<{tag}{a}/>") } else { format!("<{tag}{a}>{body}</{tag}>") }
 }
@@ -176,12 +195,17 @@ pub fn content_xml(b: &OBook) -> String {
     o.push_str("</office:automatic-styles><office:body><office:spreadsheet>");
     for s in &b.sheets {
         let st = match s.display { None => String::new(), Some(true) => " table:style-name=\"ta1\"".into(), Some(false) => " table:style-name=\"ta2\"".into() };
-        o.push_str(&format!("<table:table table:name=\"{}\"{st}><table:table-column table:number-columns-repeated=\"4\"/>", esc(&s.name)));
-        for r in &s.rows {
+        o.push_str(&format!("<table:table table:name=\"{}\"{st}>{}", esc(&s.name), if b.row_wrappers == 3 { "<table:table-header-columns><table:table-column table:number-columns-repeated=\"4\"/></table:table-header-columns>" } else { "<table:table-column table:number-columns-repeated=\"4\"/>" }));
+        let n = s.rows.len();
+        for (i, r) in s.rows.iter().enumerate() {
+            match (b.row_wrappers, i) { (1 | 3, 0) => o.push_str("<table:table-header-rows>"), (2, 0) => o.push_str("<table:table-row-group>"), (3, 1) => o.push_str("<table:table-rows>"), _ => {} }
             if r.repeat != 1 { o.push_str(&format!("<table:table-row table:number-rows-repeated=\"{}\">", r.repeat)); } else { o.push_str("<table:table-row>"); }
             if r.cells.is_empty() { o.push_str("<table:table-cell/>"); }
-            for (c, rep) in &r.cells { o.push_str(&cell_xml(c, *rep)); }
+            for (c, rep) in &r.cells { o.push_str(&cell_xml(c, *rep, b.cell_attr_order)); }
             o.push_str("</table:table-row>");
+            if matches!(b.row_wrappers, 1 | 3) && i == 0 { o.push_str("</table:table-header-rows>"); }
+            if b.row_wrappers == 2 && i + 1 == n { o.push_str("</table:table-row-group>"); }
+            if b.row_wrappers == 3 && i + 1 == n && i >= 1 { o.push_str("</table:table-rows>"); }
         }
         o.push_str("</table:table>");
     }
